@@ -133,7 +133,7 @@ theorem C10_frame (s : Sch) (o : PassOut) (p : Int) (i : Nat) (q' : PQ)
   · rfl
   · split
     · rfl
-    · rw [hpark]; simp [List.getElem?_set, Ne.symm hj]
+    · rw [hpark]; simp [absorb, List.getElem?_set, Ne.symm hj]
 
 /-- A result is reported exactly when the coroutine finishes, it is the coroutine's own outcome, and
 a finished coroutine is put into no queue again (so it can never be reported a second time). -/
@@ -157,5 +157,48 @@ theorem C10_park_delayed (s : Sch) (o : PassOut) (i y ts : Nat) :
   by_cases h : ts > s.th.now <;> simp [park, h]
 
 example : ((pass (submit (submit { th := { now := 1000 } } [.until_ 0 5000, .ret 7] 0) [.ret 9] 3)).2.results) = [(1, .ok 9)] := by decide
+
+theorem park_cancel (s : Sch) (o : PassOut) (i : Nat) (res : Res) : (park s o i res).1.cancel = s.cancel := by
+  unfold park
+  split <;> try rfl
+  split <;> rfl
+
+/-- **A cancel request persists until it is honoured.** One iteration of the scheduling loop removes
+from the cancel set only the coroutine it popped and dropped: every other pending request — whether
+made between passes or by a coroutine body during its own slice — is still pending afterwards.
+(In particular resuming a coroutine never clears a request, not even one for itself.) -/
+theorem C10_cancel_persists (s : Sch) (o : PassOut) (j : Nat) (hj : j ∈ (checkReady s).cancel)
+    (hnd : (iter s o).2.2 ≠ .dropped j) : j ∈ (iter s o).1.cancel := by
+  unfold iter at hnd ⊢
+  split
+  · exact hj
+  · rename_i p i q' hpop
+    simp only [hpop] at hnd
+    split
+    · rename_i hc
+      simp only [hc, if_true] at hnd
+      have hne : j ≠ i := by intro h; subst h; exact hnd rfl
+      simp only [List.mem_filter]
+      exact ⟨hj, by simpa using hne⟩
+    · split
+      · exact hj
+      · rw [park_cancel]; simp only [absorb]; exact List.mem_append_left _ hj
+
+/-- A request made by a body during its slice (`Scheduler::try_cancel_coroutine` called from inside
+a coroutine, for itself or another one) is in the cancel set when the slice is over. -/
+theorem C10_inslice_request_recorded (s : Sch) (o : PassOut) (p : Int) (i : Nat) (q' : PQ) (c : Co)
+    (hpop : (checkReady s).ready.popMin = some (p, i, q')) (hnc : i ∉ (checkReady s).cancel)
+    (hc : (checkReady s).cos[i]? = some c) (j : Nat) (hjl : j < (checkReady s).cos.length)
+    (hj : j ∈ (resume (checkReady s).th c 0).1.req) : j ∈ (iter s o).1.cancel := by
+  unfold iter
+  simp only [hpop, hnc, if_false, hc]
+  rw [park_cancel]
+  simp only [absorb, List.mem_append, List.mem_filter, List.length_set]
+  exact Or.inr ⟨hj, by simpa using hjl⟩
+
+-- non-vacuity: coroutine 0 requests its own cancellation during its first slice, then suspends:
+-- it is dropped at its next turn and never finishes; coroutine 1 is unaffected
+example : ((pass (submit (submit { th := { now := 1000 } } [.req 0, .susp 0, .ret 7] 0) [.ret 9] 0)).2.results,
+           (pass (submit (submit { th := { now := 1000 } } [.req 0, .susp 0, .ret 7] 0) [.ret 9] 0)).1.dropped) = ([(1, .ok 9)], [0]) := by decide
 
 end Oc.Props.C10
